@@ -141,26 +141,51 @@ Proof.
 Qed.
 
 (* ---------------------------------------------------------------- metadata: a good answer determines the entries *)
+Lemma try_path_skips f v p s :
+  ignore_errors f = false -> ignore_missing f = false ->
+  forall k tries n fs nreq err,
+  (forall j, n <= j < n + k -> transient (rbody (nth_resp s j)) = true) ->
+  exists nreq' err', try_path f v p s (k + tries) n fs nreq err = try_path f v p s tries (n + k) fs nreq' err'.
+Proof.
+  intros He Hm. induction k as [|k IH]; intros tries n fs nreq err Ht.
+  - exists nreq, err. rewrite Nat.add_0_r. reflexivity.
+  - cbn [Nat.add try_path].
+    assert (T : transient (rbody (nth_resp s n)) = true) by (apply Ht; lia).
+    destruct (rbody (nth_resp s n)) as [| |ann date del ab] eqn:Eb; try discriminate.
+    + cbn [handle]. rewrite He, Hm. cbn [orb].
+      destruct (IH tries (S n) fs (nreq + pre_retries (nth_resp s n) + 1) (err || false)) as [nr [er E]].
+      { intros j Hj. apply Ht. lia. }
+      exists nr, er. rewrite E. f_equal. lia.
+    + cbn [handle]. rewrite He.
+      destruct (IH tries (S n) fs (nreq + pre_retries (nth_resp s n) + 1) (err || true)) as [nr [er E]].
+      { intros j Hj. apply Ht. lia. }
+      exists nr, er. rewrite E. f_equal. lia.
+Qed.
+
 Lemma good_meta_file swallow f u v a d fs :
   good_meta f u v a d ->
   exists res, process_file swallow f u fs false = FRun res /\
               out_variant (r_out res) = Some 0 /\
               forall q, In q (vpaths v) -> lookup (r_fs res) q = Some {| fsize := a; fmt := Date d |}.
 Proof.
-  intros [Hcs [Ha [Hsz [vs [p [ps [Ev [Ep Hb]]]]]]]].
-  unfold process_file, precheck. rewrite Hcs.
-  eexists. split; [reflexivity|].
+  intros [Hcs [Ha [Hsz [vs [p [ps [k [Ev [Ep [Hk [Hreq [Htr Hb]]]]]]]]]]]].
+  unfold process_file, precheck. rewrite Hcs. eexists. split; [reflexivity|].
   unfold download_file. rewrite Ev. cbn [try_variants]. rewrite Ep. cbn [try_paths].
-  change max_tries with 10. cbn [try_path]. rewrite Hb. cbn [rbody handle positive_opt].
+  assert (E : exists nr er, try_path f v p (script_of u p) max_tries 0 fs 0 false =
+                            try_path f v p (script_of u p) (max_tries - k) k fs nr er).
+  { destruct Hreq as [-> |[He Hm]]; [exists 0, false; rewrite Nat.sub_0_r; reflexivity|].
+    destruct (try_path_skips f v p (script_of u p) He Hm k (max_tries - k) 0 fs 0 false) as [nr [er E]].
+    { intros j Hj. apply Htr. lia. }
+    exists nr, er. cbn [Nat.add] in E. rewrite <- E. f_equal. lia. }
+  destruct E as [nr [er E]]. rewrite E.
+  destruct (max_tries - k) as [|t] eqn:Et; [lia|]. cbn [try_path]. rewrite Hb. cbn [rbody handle positive_opt].
   destruct (N.eqb a 0) eqn:Ez; [apply N.eqb_eq in Ez; contradiction|].
   assert (Hmis : (N.ltb 0 (vsize v) && negb (N.eqb a (vsize v))) = false).
-  { destruct (N.ltb 0 (vsize v)) eqn:El; [|reflexivity]. apply N.ltb_lt in El.
-    rewrite (Hsz El), N.eqb_refl. reflexivity. }
+  { destruct (N.ltb 0 (vsize v)) eqn:El; [|reflexivity]. apply N.ltb_lt in El. rewrite (Hsz El), N.eqb_refl. reflexivity. }
   rewrite Hmis.
   destruct (need_update fs p (Some a) (Some d)) eqn:En; cbn [negb].
   - assert (Hmis2 : (N.ltb 0 (vsize v) && negb (N.eqb (vsize v) a)) = false).
-    { destruct (N.ltb 0 (vsize v)) eqn:El; [|reflexivity]. apply N.ltb_lt in El.
-      rewrite (Hsz El), N.eqb_refl. reflexivity. }
+    { destruct (N.ltb 0 (vsize v)) eqn:El; [|reflexivity]. apply N.ltb_lt in El. rewrite (Hsz El), N.eqb_refl. reflexivity. }
     rewrite Hmis2. cbn. split; [reflexivity|].
     intros q Hq. rewrite lookup_set_all, ?Ep, (in_string_mem q (p :: ps) Hq). reflexivity.
   - destruct (need_update_false _ _ _ _ En) as [i [d' [a' [Hl [Hd [Hp [Hf Hs]]]]]]].
@@ -189,7 +214,7 @@ Proof.
   destruct Hf as [<-|Hf]; [|apply IH; assumption].
   destruct (good_meta_file swallow g u _ _ _ fs (Hg g (or_introl eq_refl))) as [res [Hp [_ Hl]]].
   assert (Hqa : In q (all_paths g)).
-  { destruct (Hg g (or_introl eq_refl)) as [_ [_ [_ [vs [p [ps [Ev _]]]]]]].
+  { destruct (Hg g (or_introl eq_refl)) as [_ [_ [_ [vs [p [ps [k [Ev _]]]]]]]].
     unfold all_paths. rewrite Ev. cbn [flat_map]. apply in_or_app. left. exact Hq. }
   specialize (Hfr q rest (fs_after (process_file swallow g u fs false) fs) (Hdg q Hqa)).
   rewrite Er in Hfr. cbn [snd] in Hfr. rewrite Hfr, Hp. cbn [fs_after]. apply Hl. exact Hq.
